@@ -3,7 +3,15 @@ ASSUMPTIONS = [
     "E2: CrossHair's symbolic str/int models and z3; harness bounds as listed per obligation",
     "values: every string over 'aAbB*' up to length 3 (quick) / 4 (thorough); patterns: a fixed table of 13 "
     "shell patterns and 8 regular expressions, each with a hand-written language as oracle; "
-    "'[' classes and arbitrary user regexes are outside the claim",
+    "brackets: only * and ? are wildcards -- 7 bracket patterns against the 108 strings [aA]?\\[?[bB]?\\]?[aA]?, both case modes",
+    "E1 (name maps, shared with C11): _update_hwire_namemap/_update_hcable_namemap on three hierarchy fixtures",
+    "E1 (flat queries): _get_instances/_get_cables/_get_ports/_get_definitions(parent, (p1, p2), key=.NAME, is_case symbolic, "
+    "is_re=False) from an ARBITRARY well-formed state of the quick universe with distinct sibling names (names over a/A/ab/b or "
+    "absent, patterns over a, A, a*, *, ?, *b, zz): the result equals the unfiltered result (default pattern) restricted to "
+    "the elements whose value -- '' when the key is absent -- matches p1 or p2 under an independent matcher; the unfiltered result "
+    "is exactly the (named) children of the parent; no element twice; no fast lookup registered (the fallback scan is exercised; "
+    "the registered lookup is C10's subject)",
+    "outside: arbitrary user regexes inside the flat queries, recursive/selection variants of the flat queries, user keys",
 ]
 
 
@@ -36,4 +44,7 @@ def jobs(tier):
                              "[k=%d,is_case=%d]" % (k, case)))
     from vf.props.C11 import namemap_jobs
     out += namemap_jobs("C13")
+    for q in ("instances", "cables", "ports", "definitions"):
+        out.append(dict(name="C13/flat-query/%s" % q, engine="E1/symheap", module="vf.e1.query_jobs", func="flat_query_job",
+                        timeout=1500, args=dict(query=q, tier=tier)))
     return out
